@@ -333,7 +333,7 @@ public:
    {
       if (!w.initErr.empty()) { msg = w.initErr; key = w.initKey; return seqx::SEQX_VIOLATION; }
       if (w.nHist < 64) w.hist[w.nHist++] = opi;
-      if (g_trace) { printf("   %s  %s\n", Dump(w).c_str(), ""); printf("%s\n", masterNames[sel[opi]].c_str()); }
+      if (g_trace) printf("   %s\n%s\n", Dump(w).c_str(), masterNames[sel[opi]].c_str());
       return ApplyOp(w, master[sel[opi]], masterNames[sel[opi]], msg, key);
    }
 
@@ -468,7 +468,7 @@ int main(int argc, char ** argv)
       return ex.ReplayFile(d);
    }
    // depth per explored space {quick, thorough}; share of the time budget
-   static const int depths[NUM_PROFILES][2] = { {3, 4}, {4, 5}, {5, 5} };
+   static const int depths[NUM_PROFILES][2] = { {3, 4}, {4, 5}, {4, 5} };
    static const double share[NUM_PROFILES] = { 0.60, 0.20, 0.20 };
    double used = 0.0;
    for (int prof = 0; prof < NUM_PROFILES; prof++) {
